@@ -30,6 +30,8 @@ def configs(tier, seed):
                 variants = ["same", ""] + (["complex"] if kind == "uhf" else [])
             if kind == "rhf":
                 variants = ["", "complex"]
+            if kind in ("ghf", "noci"):
+                variants = ["", "complex"] + (["complex_orth"] if kind == "noci" else [])
             if kind == "multislater":
                 ndet = len(trials.all_dets(n, na, nb))
                 variants = ["ref:%d" % k for k in (range(ndet) if (thorough or ndet <= 4) else sorted(set([0, 1, ndet // 2, ndet - 1])))]
@@ -40,6 +42,13 @@ def configs(tier, seed):
                 if trials.admitted(kind, n, na, nb):
                     v = {"uhf": "same", "uhf_cpmc": "same", "multislater": "ref:2"}.get(kind, "")
                     out.append(dict(kind=kind, n=n, na=na, nb=nb, variant=v, seed=seed, tier=tier, lite=True))
+    # minority-spin-up sectors (n_dn > n_up): admissible for unrestricted walkers only (a restricted walker holds the
+    # majority block first); every kind that admits the mirrored sector must admit these
+    for kind in trials.KINDS_ALL:
+        for (n, na, nb) in ([(3, 1, 2), (4, 1, 2), (4, 1, 3), (4, 2, 3)] if thorough else [(3, 1, 2)]):
+            if trials.admitted(kind, n, nb, na) and trials.admitted(kind, n, na, nb) and kind not in trials.CLOSED_ONLY:
+                v = {"uhf": "", "uhf_cpmc": "", "multislater": "ref:2"}.get(kind, "")
+                out.append(dict(kind=kind, n=n, na=na, nb=nb, variant=v, seed=seed, tier=tier, lite=(n == 4)))
     cost = lambda c: -((4 if c["kind"] in trials.AUTO_KINDS else 1) * (3 ** (c["n"] * c["na"]) + 2 ** (c["n"] * (c["na"] + c["nb"]))))
     out.sort(key=cost)
     return out
